@@ -201,7 +201,7 @@ theorem any_append_of (l : List Close) (x : Close) (h : l.any Close.isReturned =
 
 /-- the three implications of `WF`, for one close call -/
 def WFc (h : Host) (c : Close) : Prop :=
-  (c.stage = .doneSet → h.done = true) ∧
+  (c.stage = .doneSet ∨ c.stage = .submitted → h.done = true) ∧
   (c.stage = .shutdown → h.done = true ∧ h.transportsClosed = true) ∧
   (c.stage = .engineClosed ∨ c.stage = .stopping ∨ c.stage = .returned → Shut h)
 
@@ -317,13 +317,33 @@ theorem step_summary (h : Host) (b : Block) (h' : Host) (o : List Out) (hw : WF 
     simp only [step] at hs
     split at hs
     · rename_i sync k hi
-      simp only [Option.some.injEq, Prod.mk.injEq] at hs
-      obtain ⟨rfl, _⟩ := hs
-      refine ⟨id, id, id, ?_, fun x => any_set_of_not _ i _ _ hi rfl x, fun x => Or.inl x⟩
-      intro c hc
-      rcases mem_setStage hc with rfl | hm
-      · exact Or.inr (WFc_unreg _ _ _)
-      · exact Or.inl hm
+      split at hs
+      · simp at hs
+      · simp only [Option.some.injEq, Prod.mk.injEq] at hs
+        obtain ⟨rfl, _⟩ := hs
+        refine ⟨id, id, id, ?_, fun x => any_set_of_not _ i _ _ hi rfl x, fun x => Or.inl x⟩
+        intro c hc
+        rcases mem_setStage hc with rfl | hm
+        · exact Or.inr (WFc_unreg _ _ _)
+        · exact Or.inl hm
+    · simp at hs
+  | closeBlocked i =>
+    simp only [step] at hs
+    split at hs
+    · rename_i c0 hi
+      split at hs
+      · rename_i hwl
+        have hnr : c0.isReturned = false := by
+          obtain ⟨sy, st⟩ := c0
+          cases st <;> simp_all [Close.waitsOnLoop, Close.isReturned]
+        simp only [Option.some.injEq, Prod.mk.injEq] at hs
+        obtain ⟨rfl, _⟩ := hs
+        refine ⟨id, id, id, ?_, fun x => any_set_of_not _ i _ _ hi hnr x, fun x => Or.inl x⟩
+        intro c hc
+        rcases mem_setStage hc with rfl | hm
+        · exact Or.inr (WFc_aborted _ _)
+        · exact Or.inl hm
+      · simp at hs
     · simp at hs
   | closeMarkDone i caller =>
     simp only [step] at hs
@@ -367,7 +387,7 @@ theorem step_summary (h : Host) (b : Block) (h' : Host) (o : List Out) (hw : WF 
         simp only [Host.setStage, z4]
         exact any_set_of_not _ i _ _ hi rfl x
     · rename_i hi
-      have hd : h.done = true := (hw.1 _ (List.mem_of_getElem? hi)).1 rfl
+      have hd : h.done = true := (hw.1 _ (List.mem_of_getElem? hi)).1 (Or.inl rfl)
       split at hs
       · rename_i hown
         rw [engine_close_off_loop] at hown
@@ -387,13 +407,24 @@ theorem step_summary (h : Host) (b : Block) (h' : Host) (o : List Out) (hw : WF 
         · split at hs
           · simp only [Option.some.injEq, Prod.mk.injEq] at hs
             obtain ⟨rfl, _⟩ := hs
-            refine ⟨id, fun _ => transportsAfterShutdown_eq h.transportsClosed, id, ?_, fun x => any_set_of_not _ i _ _ hi rfl x, fun x => Or.inl x⟩
+            refine ⟨id, id, id, ?_, fun x => any_set_of_not _ i _ _ hi rfl x, fun x => Or.inl x⟩
             intro c hc
             rcases mem_setStage hc with rfl | hm
-            · exact Or.inr ⟨by simp, fun _ => ⟨hd, transportsAfterShutdown_eq h.transportsClosed⟩, by simp⟩
+            · exact Or.inr ⟨fun _ => hd, by simp, by simp⟩
             · exact Or.inl hm
           · rename_i haw
             exact absurd engine_close_awaits_async_close_holds haw
+    · rename_i hi
+      have hd : h.done = true := (hw.1 _ (List.mem_of_getElem? hi)).1 (Or.inr rfl)
+      split at hs
+      · simp at hs
+      · simp only [Option.some.injEq, Prod.mk.injEq] at hs
+        obtain ⟨rfl, _⟩ := hs
+        refine ⟨id, fun _ => transportsAfterShutdown_eq h.transportsClosed, id, ?_, fun x => any_set_of_not _ i _ _ hi rfl x, fun x => Or.inl x⟩
+        intro c hc
+        rcases mem_setStage hc with rfl | hm
+        · exact Or.inr ⟨by simp, fun _ => ⟨hd, transportsAfterShutdown_eq h.transportsClosed⟩, by simp⟩
+        · exact Or.inl hm
     · simp at hs
   | closeFinish i =>
     simp only [step] at hs
@@ -408,14 +439,16 @@ theorem step_summary (h : Host) (b : Block) (h' : Host) (o : List Out) (hw : WF 
       · exact Or.inr ⟨by simp, by simp, fun _ => ⟨hd, ht, cleanupAfterClose_eq h.cleanupArmed⟩⟩
       · exact Or.inl hm
     · rename_i hi
-      simp only [Option.some.injEq, Prod.mk.injEq] at hs
-      obtain ⟨rfl, _⟩ := hs
-      obtain ⟨hd, ht⟩ := (hw.1 _ (List.mem_of_getElem? hi)).2.1 rfl
-      refine ⟨id, id, fun _ => cleanupAfterClose_eq h.cleanupArmed, ?_, fun x => any_set_of_not _ i _ _ hi rfl x, fun x => Or.inl x⟩
-      intro c hc
-      rcases mem_setStage hc with rfl | hm
-      · exact Or.inr ⟨by simp, by simp, fun _ => ⟨hd, ht, cleanupAfterClose_eq h.cleanupArmed⟩⟩
-      · exact Or.inl hm
+      split at hs
+      · simp at hs
+      · simp only [Option.some.injEq, Prod.mk.injEq] at hs
+        obtain ⟨rfl, _⟩ := hs
+        obtain ⟨hd, ht⟩ := (hw.1 _ (List.mem_of_getElem? hi)).2.1 rfl
+        refine ⟨id, id, fun _ => cleanupAfterClose_eq h.cleanupArmed, ?_, fun x => any_set_of_not _ i _ _ hi rfl x, fun x => Or.inl x⟩
+        intro c hc
+        rcases mem_setStage hc with rfl | hm
+        · exact Or.inr ⟨by simp, by simp, fun _ => ⟨hd, ht, cleanupAfterClose_eq h.cleanupArmed⟩⟩
+        · exact Or.inl hm
     · simp at hs
   | closeThreadsCheck i =>
     simp only [step] at hs
@@ -682,11 +715,12 @@ theorem mid_step (h : Host) (b : Block) (hb : b.mid = true) (nog : ∀ i, b ≠ 
       refine ⟨?_, ?_, ?_, ?_, gated_no_goodbye h _ (count_replicate_send s)⟩ <;> split <;> first | rfl | exact hreg | exact h0
   | startUp =>
     simp only [step] at hs
-    split at hs
-    · simp at hs
-    · simp only [Option.some.injEq, Prod.mk.injEq] at hs
-      obtain ⟨rfl, rfl⟩ := hs
-      exact ⟨rfl, rfl, hreg, h0, rfl⟩
+    (repeat' split at hs) <;>
+      first
+      | (simp at hs; done)
+      | (simp only [Option.some.injEq, Prod.mk.injEq] at hs
+         obtain ⟨rfl, rfl⟩ := hs
+         exact ⟨rfl, rfl, hreg, h0, rfl⟩)
   | apiCall k =>
     simp only [step] at hs
     split at hs
@@ -800,11 +834,25 @@ theorem mid_step (h : Host) (b : Block) (hb : b.mid = true) (nog : ∀ i, b ≠ 
       refine ⟨rfl, rfl, hreg, ?_, rfl⟩
       simp only [Host.setStage]
       rw [getElem?_zero_set_ne _ _ _ hi]; exact h0
-    · simp only [Option.some.injEq, Prod.mk.injEq] at hs
-      obtain ⟨rfl, rfl⟩ := hs
-      refine ⟨rfl, rfl, hreg, ?_, rfl⟩
-      simp only [Host.setStage]
-      rw [getElem?_zero_set_ne _ _ _ hi]; exact h0
+    · split at hs
+      · simp at hs
+      · simp only [Option.some.injEq, Prod.mk.injEq] at hs
+        obtain ⟨rfl, rfl⟩ := hs
+        refine ⟨rfl, rfl, hreg, ?_, rfl⟩
+        simp only [Host.setStage]
+        rw [getElem?_zero_set_ne _ _ _ hi]; exact h0
+    · simp at hs
+  | closeBlocked i =>
+    have hi : i ≠ 0 := by simpa [Block.mid] using hb
+    simp only [step] at hs
+    split at hs
+    · split at hs
+      · simp only [Option.some.injEq, Prod.mk.injEq] at hs
+        obtain ⟨rfl, rfl⟩ := hs
+        refine ⟨rfl, rfl, hreg, ?_, by simp [count, isGoodbye]⟩
+        simp only [Host.setStage]
+        rw [getElem?_zero_set_ne _ _ _ hi]; exact h0
+      · simp at hs
     · simp at hs
   | closeThreadsCheck i =>
     have hi : i ≠ 0 := by simpa [Block.mid] using hb
@@ -816,22 +864,7 @@ theorem mid_step (h : Host) (b : Block) (hb : b.mid = true) (nog : ∀ i, b ≠ 
       simp only [Host.setStage]
       rw [getElem?_zero_set_ne _ _ _ hi]; exact h0
     · simp at hs
-  | closeThreadsStop i =>
-    have hi : i ≠ 0 := by simpa [Block.mid] using hb
-    simp only [step] at hs
-    split at hs
-    · split at hs
-      · simp only [Option.some.injEq, Prod.mk.injEq] at hs
-        obtain ⟨rfl, rfl⟩ := hs
-        refine ⟨rfl, rfl, hreg, ?_, by simp [count, isGoodbye]⟩
-        simp only [Host.setStage]
-        rw [getElem?_zero_set_ne _ _ _ hi]; exact h0
-      · simp only [Option.some.injEq, Prod.mk.injEq] at hs
-        obtain ⟨rfl, rfl⟩ := hs
-        refine ⟨rfl, rfl, hreg, ?_, rfl⟩
-        simp only [Host.setStage]
-        rw [getElem?_zero_set_ne _ _ _ hi]; exact h0
-    · simp at hs
+  | closeThreadsStop i => simp [Block.mid] at hb
   | closeAbort i =>
     have hi : i ≠ 0 := by simpa [Block.mid] using hb
     simp only [step] at hs
@@ -843,6 +876,35 @@ theorem mid_step (h : Host) (b : Block) (hb : b.mid = true) (nog : ∀ i, b ≠ 
          simp only [Host.setStage]
          rw [getElem?_zero_set_ne _ _ _ hi]; exact h0)
       | simp at hs
+
+/-- a `mid` block does not stop the loop -/
+theorem mid_loopRunning (h : Host) (b : Block) (hb : b.mid = true) (h' : Host) (o : List Out) (hs : step h b = some (h', o)) :
+    h'.loopRunning = h.loopRunning := by
+  cases b <;> simp only [step] at hs <;> (repeat' split at hs) <;>
+    first
+    | (simp at hs; done)
+    | (simp [Block.mid] at hb; done)
+    | (simp only [Option.some.injEq, Prod.mk.injEq] at hs
+       obtain ⟨rfl, _⟩ := hs
+       first
+       | rfl
+       | (split <;> rfl)
+       | (simp [closeBody, Host.setStage, (zcClose_frame h).2.2.2.2.2.2.2.1]; done))
+
+theorem mid_run_loopRunning (bs : List Block) (hb : ∀ b ∈ bs, b.mid3 = true) :
+    ∀ (h h' : Host) (o : List Out), run h bs = some (h', o) → h'.loopRunning = h.loopRunning := by
+  induction bs with
+  | nil =>
+    intro h h' o hr
+    simp only [run, Option.some.injEq, Prod.mk.injEq] at hr
+    obtain ⟨rfl, _⟩ := hr
+    rfl
+  | cons b rest ih =>
+    intro h h' o hr
+    obtain ⟨s1, o1, o2, h1, h2, _⟩ := run_cons h b rest h' o hr
+    have hb1 := hb b (by simp)
+    simp only [Block.mid3, Bool.and_eq_true] at hb1
+    rw [ih (fun x hx => hb x (by simp [hx])) s1 h' o2 h2, mid_loopRunning h b hb1.1 s1 o1 h1]
 
 theorem mid_run (bs : List Block) (hb : ∀ b ∈ bs, b.mid3 = true) (c0 : Close) :
     ∀ (h h' : Host) (o : List Out), run h bs = some (h', o) → h.closes[0]? = some c0 → h.registry = 0 →
@@ -980,6 +1042,11 @@ theorem loopError_site (h : Host) (b : Block) (h' : Host) (o : List Out) (hs : s
       · simp only [Option.some.injEq, Prod.mk.injEq] at hs
         obtain ⟨_, rfl⟩ := hs
         simp at he
+    · split at hs
+      · simp at hs
+      · simp only [Option.some.injEq, Prod.mk.injEq] at hs
+        obtain ⟨_, rfl⟩ := hs
+        simp at he
     · simp at hs
   | _ =>
     simp only [step] at hs <;> (repeat' split at hs) <;>
@@ -1037,87 +1104,115 @@ theorem closes_frame (h : Host) (b : Block) (h' : Host) (o : List Out) (hs : ste
     simp [this]
 
 /-- **progress**: whatever the rest of the host is doing, the next block of a close call that has not ended is
-enabled, and it moves that call strictly closer to its end -/
-theorem close_progress (h : Host) (k : Nat) (c : Close) (b : Block) (hc : h.closes[k]? = some c) (hn : c.next k = some b) :
+enabled, and it moves that call strictly closer to its end (for a sync close blocked on a loop that has been stopped under it the
+next block is the expiry of `run_coro_with_timeout`'s safeguard: it ends the call with `EventLoopBlocked`) -/
+theorem close_progress (h : Host) (k : Nat) (c : Close) (b : Block) (hc : h.closes[k]? = some c) (hn : c.next k h.loopRunning = some b) :
     ∃ h' o c', step h b = some (h', o) ∧ h'.closes[k]? = some c' ∧ c'.rank < c.rank := by
   obtain ⟨hlt, hget⟩ := List.getElem?_eq_some_iff.mp hc
-  obtain ⟨sync, st⟩ := c
-  cases st with
-  | waitingStart =>
-    cases sync with
-    | true => simp [Close.next] at hn
-    | false =>
-      simp only [Close.next, Option.some.injEq] at hn
-      subst hn
-      refine ⟨(closeBody h false).1.setStage k false (closeBody h false).2.2, (closeBody h false).2.1,
-        ⟨false, (closeBody h false).2.2⟩, by simp [step, hc], by simp [Host.setStage, closeBody, hlt], ?_⟩
-      simp only [closeBody, Close.rank, moreGoodbyes, register_broadcasts]
-      split <;> omega
-  | unregistering n =>
-    cases n with
-    | zero =>
+  by_cases hblk : (c.waitsOnLoop && !h.loopRunning) = true
+  · simp only [Close.next, hblk, ↓reduceIte, Option.some.injEq] at hn
+    subst hn
+    refine ⟨h.setStage k true .aborted, [.raised .loopBlocked], ⟨true, .aborted⟩, by simp [step, hc, hblk], by simp [Host.setStage, hlt], ?_⟩
+    obtain ⟨sy, st⟩ := c
+    simp only [Bool.and_eq_true] at hblk
+    cases st <;> simp_all [Close.waitsOnLoop, Close.rank]
+  · simp only [Close.next, hblk, Bool.false_eq_true, ↓reduceIte] at hn
+    have hrun : c.waitsOnLoop = true → h.loopRunning = true := by
+      intro hw
+      cases hl : h.loopRunning with
+      | true => rfl
+      | false => simp [hw, hl] at hblk
+    obtain ⟨sync, st⟩ := c
+    cases st with
+    | waitingStart =>
+      cases sync with
+      | true => simp at hn
+      | false =>
+        simp only [Option.some.injEq] at hn
+        subst hn
+        refine ⟨(closeBody h false).1.setStage k false (closeBody h false).2.2, (closeBody h false).2.1,
+          ⟨false, (closeBody h false).2.2⟩, by simp [step, hc], by simp [Host.setStage, closeBody, hlt], ?_⟩
+        simp only [closeBody, Close.rank, moreGoodbyes, register_broadcasts]
+        split <;> omega
+    | unregistering n =>
+      cases n with
+      | zero =>
+        cases sync with
+        | true =>
+          simp only [Option.some.injEq] at hn
+          subst hn
+          exact ⟨(zcClose h).1.setStage k true .doneSet, (zcClose h).2, ⟨true, .doneSet⟩, by simp [step, hc, selfJoin],
+            by simp [Host.setStage, zcClose_closes, hlt], by simp [Close.rank]⟩
+        | false =>
+          simp only [Option.some.injEq] at hn
+          subst hn
+          simp only [step, hc]
+          exact ⟨_, _, ⟨false, .shutdown⟩, rfl, by simp [Host.setStage, zcClose_closes, hlt], by simp [Close.rank]⟩
+      | succ m =>
+        simp only [Option.some.injEq] at hn
+        subst hn
+        have hlr : (sync && !h.loopRunning) = false := by
+          cases sync with
+          | false => rfl
+          | true => simp [hrun (by simp [Close.waitsOnLoop])]
+        exact ⟨h.setStage k sync (.unregistering m), gated h [.goodbye], ⟨sync, .unregistering m⟩, by simp [step, hc, hlr],
+          by simp [Host.setStage, hlt], by simp [Close.rank]⟩
+    | doneSet =>
       cases sync with
       | true =>
-        simp only [Close.next, Option.some.injEq] at hn
+        simp only [Option.some.injEq] at hn
         subst hn
-        exact ⟨(zcClose h).1.setStage k true .doneSet, (zcClose h).2, ⟨true, .doneSet⟩, by simp [step, hc, selfJoin],
-          by simp [Host.setStage, zcClose_closes, hlt], by simp [Close.rank]⟩
+        simp only [step, hc, engine_close_off_loop, Bool.false_eq_true, ↓reduceIte]
+        split
+        · exact ⟨_, _, ⟨true, .engineClosed⟩, rfl, by simp [Host.setStage, hlt], by simp [Close.rank]⟩
+        · split
+          · exact ⟨_, _, ⟨true, .submitted⟩, rfl, by simp [Host.setStage, hlt], by simp [Close.rank]⟩
+          · exact ⟨_, _, ⟨true, .engineClosed⟩, rfl, by simp [Host.setStage, hlt], by simp [Close.rank]⟩
+      | false => simp at hn
+    | submitted =>
+      cases sync with
+      | true =>
+        simp only [Option.some.injEq] at hn
+        subst hn
+        have hlr := hrun (by simp [Close.waitsOnLoop])
+        simp only [step, hc, hlr, Bool.not_true, Bool.false_eq_true, ↓reduceIte]
+        exact ⟨_, _, ⟨true, .shutdown⟩, rfl, by simp [Host.setStage, hlt], by simp [Close.rank]⟩
+      | false => simp at hn
+    | shutdown =>
+      cases sync with
+      | true =>
+        simp only [Option.some.injEq] at hn
+        subst hn
+        have hlr := hrun (by simp [Close.waitsOnLoop])
+        simp only [step, hc, hlr, Bool.not_true, Bool.false_eq_true, ↓reduceIte]
+        exact ⟨_, _, ⟨true, .engineClosed⟩, rfl, by simp [Host.setStage, hlt], by simp [Close.rank]⟩
       | false =>
-        simp only [Close.next, Option.some.injEq] at hn
+        simp only [Option.some.injEq] at hn
         subst hn
         simp only [step, hc]
-        exact ⟨_, _, ⟨false, .shutdown⟩, rfl, by simp [Host.setStage, zcClose_closes, hlt], by simp [Close.rank]⟩
-    | succ m =>
-      simp only [Close.next, Option.some.injEq] at hn
-      subst hn
-      exact ⟨h.setStage k sync (.unregistering m), gated h [.goodbye], ⟨sync, .unregistering m⟩, by simp [step, hc],
-        by simp [Host.setStage, hlt], by simp [Close.rank]⟩
-  | doneSet =>
-    cases sync with
-    | true =>
-      simp only [Close.next, Option.some.injEq] at hn
-      subst hn
-      simp only [step, hc, engine_close_off_loop, Bool.false_eq_true, ↓reduceIte]
-      split
-      · exact ⟨_, _, ⟨true, .engineClosed⟩, rfl, by simp [Host.setStage, hlt], by simp [Close.rank]⟩
-      · split
-        · exact ⟨_, _, ⟨true, .shutdown⟩, rfl, by simp [Host.setStage, hlt], by simp [Close.rank]⟩
-        · exact ⟨_, _, ⟨true, .engineClosed⟩, rfl, by simp [Host.setStage, hlt], by simp [Close.rank]⟩
-    | false => simp [Close.next] at hn
-  | shutdown =>
-    cases sync with
-    | true =>
-      simp only [Close.next, Option.some.injEq] at hn
-      subst hn
-      simp only [step, hc]
-      exact ⟨_, _, ⟨true, .engineClosed⟩, rfl, by simp [Host.setStage, hlt], by simp [Close.rank]⟩
-    | false =>
-      simp only [Close.next, Option.some.injEq] at hn
-      subst hn
-      simp only [step, hc]
-      exact ⟨_, _, ⟨false, .returned⟩, rfl, by simp [Host.setStage, hlt], by simp [Close.rank]⟩
-  | engineClosed =>
-    cases sync with
-    | true =>
-      simp only [Close.next, Option.some.injEq] at hn
-      subst hn
-      simp only [step, hc]
-      refine ⟨_, _, ⟨true, if Gen.Shutdown.shutdown_threads_skipped h.loopThread then .returned else .stopping⟩, rfl,
-        by simp [Host.setStage, hlt], ?_⟩
-      split <;> simp [Close.rank]
-    | false => simp [Close.next] at hn
-  | stopping =>
-    cases sync with
-    | true =>
-      simp only [Close.next, Option.some.injEq] at hn
-      subst hn
-      simp only [step, hc]
-      split
-      · exact ⟨_, _, ⟨true, .aborted⟩, rfl, by simp [Host.setStage, hlt], by simp [Close.rank]⟩
-      · exact ⟨_, _, ⟨true, .returned⟩, rfl, by simp [Host.setStage, hlt], by simp [Close.rank]⟩
-    | false => simp [Close.next] at hn
-  | returned => cases sync <;> simp [Close.next] at hn
-  | aborted => cases sync <;> simp [Close.next] at hn
+        exact ⟨_, _, ⟨false, .returned⟩, rfl, by simp [Host.setStage, hlt], by simp [Close.rank]⟩
+    | engineClosed =>
+      cases sync with
+      | true =>
+        simp only [Option.some.injEq] at hn
+        subst hn
+        simp only [step, hc]
+        refine ⟨_, _, ⟨true, if Gen.Shutdown.shutdown_threads_skipped h.loopThread then .returned else .stopping⟩, rfl,
+          by simp [Host.setStage, hlt], ?_⟩
+        split <;> simp [Close.rank]
+      | false => simp at hn
+    | stopping =>
+      cases sync with
+      | true =>
+        simp only [Option.some.injEq] at hn
+        subst hn
+        simp only [step, hc]
+        split
+        · exact ⟨_, _, ⟨true, .aborted⟩, rfl, by simp [Host.setStage, hlt], by simp [Close.rank]⟩
+        · exact ⟨_, _, ⟨true, .returned⟩, rfl, by simp [Host.setStage, hlt], by simp [Close.rank]⟩
+      | false => simp at hn
+    | returned => cases sync <;> simp at hn
+    | aborted => cases sync <;> simp at hn
 
 /-! ### the browsers of `Zeroconf.browsers` are cancelled once (`ZcInv`) -/
 
@@ -1311,6 +1406,11 @@ theorem ZcInv_step (h : Host) (b : Block) (h' : Host) (o : List Out) (hz : ZcInv
       · simp only [Option.some.injEq, Prod.mk.injEq] at hs
         obtain ⟨rfl, _⟩ := hs
         exact hz
+    · split at hs
+      · simp at hs
+      · simp only [Option.some.injEq, Prod.mk.injEq] at hs
+        obtain ⟨rfl, _⟩ := hs
+        exact hz
     · simp at hs
   | _ =>
     simp only [step] at hs <;> (repeat' split at hs) <;>
@@ -1330,12 +1430,12 @@ def emptyB (b : Browser) : Prop := b.threaded = true → b.queued = 0
 /-- in a shut host nothing is added to a browser thread's queue by any block that is not the creation of a browser:
 nothing arrives and the cleanup timer cannot fire -/
 theorem QueuesEmpty_step (h : Host) (b : Block) (h' : Host) (o : List Out) (hq : QueuesEmpty h) (hsh : Shut h)
-    (hnb : b.isBrowse = false) (hs : step h b = some (h', o)) : QueuesEmpty h' := by
+    (hls : h.lateSockets = false) (hnb : b.isBrowse = false) (hs : step h b = some (h', o)) : QueuesEmpty h' := by
   obtain ⟨hd, ht, hcl⟩ := hsh
   have hct : ∀ b : Browser, emptyB b → b.tracked = true → emptyB { b with cancelled := true, timer := false, listening := false } :=
     fun b hb _ => hb
   cases b with
-  | recv s q d u da aa => simp [step, ht] at hs
+  | recv s q d u da aa => simp [step, ht, hls] at hs
   | cleanupFire e => simp [step, hcl] at hs
   | apiBrowse tr rp th zt => simp [Block.isBrowse] at hnb
   | schedFire i q =>
@@ -1426,6 +1526,11 @@ theorem QueuesEmpty_step (h : Host) (b : Block) (h' : Host) (o : List Out) (hq :
       · simp only [Option.some.injEq, Prod.mk.injEq] at hs
         obtain ⟨rfl, _⟩ := hs
         exact hq
+    · split at hs
+      · simp at hs
+      · simp only [Option.some.injEq, Prod.mk.injEq] at hs
+        obtain ⟨rfl, _⟩ := hs
+        exact hq
     · simp at hs
   | _ =>
     simp only [step] at hs <;> (repeat' split at hs) <;>
@@ -1453,10 +1558,17 @@ theorem zcClose_joins (h : Host) (hd : h.done = false) :
 
 /-! ### the loop thread is stopped once (`LoopInv`) -/
 
-theorem LoopInv'_set (lt lr : Bool) (cl : List Close) (i : Nat) (c : Close) (hc : c.stage ≠ .stopping) (hl : LoopInv' lt lr cl) :
-    LoopInv' lt lr (cl.set i c) := by
-  obtain ⟨l1, l2, l3⟩ := hl
-  refine ⟨l1, ?_, ?_⟩
+theorem LoopInv'_set (lt lr : Bool) (cl : List Close) (i : Nat) (c : Close) (hc : c.stage ≠ .stopping)
+    (hwl : c.waitsOnLoop = true → lr = true) (hl : LoopInv' lt lr cl) : LoopInv' lt lr (cl.set i c) := by
+  obtain ⟨l1, l0, l2, l3⟩ := hl
+  refine ⟨l1, ?_, ?_, ?_⟩
+  · intro j cj hj hw
+    rw [List.getElem?_set] at hj
+    split at hj
+    · split at hj
+      · simp only [Option.some.injEq] at hj; subst hj; exact hwl hw
+      · simp at hj
+    · exact l0 j cj hj hw
   · intro j cj hj hst
     rw [List.getElem?_set] at hj
     split at hj
@@ -1476,26 +1588,38 @@ theorem LoopInv'_set (lt lr : Bool) (cl : List Close) (i : Nat) (c : Close) (hc 
         · simp at hb
       · exact l3 a b ca cb ha hb sa sb
 
-theorem LoopInv'_append (lt lr : Bool) (cl : List Close) (c : Close) (hc : c.stage ≠ .stopping) (hl : LoopInv' lt lr cl) :
-    LoopInv' lt lr (cl ++ [c]) := by
-  obtain ⟨l1, l2, l3⟩ := hl
-  have key : ∀ (j : Nat) (cj : Close), (cl ++ [c])[j]? = some cj → cj.stage = .stopping → cl[j]? = some cj := by
-    intro j cj hj hst
+theorem LoopInv'_append (lt lr : Bool) (cl : List Close) (c : Close) (hc : c.stage ≠ .stopping)
+    (hwl : c.waitsOnLoop = true → lr = true) (hl : LoopInv' lt lr cl) : LoopInv' lt lr (cl ++ [c]) := by
+  obtain ⟨l1, l0, l2, l3⟩ := hl
+  have key : ∀ (j : Nat) (cj : Close), (cl ++ [c])[j]? = some cj → cj = c ∨ cl[j]? = some cj := by
+    intro j cj hj
     rw [List.getElem?_append] at hj
     split at hj
-    · exact hj
+    · exact Or.inr hj
     · rw [List.getElem?_singleton] at hj
       split at hj
-      · simp only [Option.some.injEq] at hj; subst hj; exact absurd hst hc
+      · simp only [Option.some.injEq] at hj; exact Or.inl hj.symm
       · simp at hj
-  refine ⟨l1, ?_, ?_⟩
+  refine ⟨l1, ?_, ?_, ?_⟩
+  · intro j cj hj hw
+    rcases key j cj hj with rfl | h0
+    · exact hwl hw
+    · exact l0 j cj h0 hw
   · intro j cj hj hst
-    exact l2 j cj (key j cj hj hst) hst
+    rcases key j cj hj with rfl | h0
+    · exact absurd hst hc
+    · exact l2 j cj h0 hst
   · intro a b ca cb ha hb sa sb
-    exact l3 a b ca cb (key a ca ha sa) (key b cb hb sb) sa sb
+    rcases key a ca ha with rfl | ha0
+    · exact absurd sa hc
+    · rcases key b cb hb with rfl | hb0
+      · exact absurd sb hc
+      · exact l3 a b ca cb ha0 hb0 sa sb
+
+theorem not_waits_async (st : CStage) : (⟨false, st⟩ : Close).waitsOnLoop = false := by simp [Close.waitsOnLoop]
 
 /-- `LoopInv` is preserved by every block except a sync close entering `_shutdown_threads()` while another one is
-about to stop the loop (finding D34) -/
+about to stop the loop, or stopping the loop while another sync close is blocked on it (finding D34) -/
 theorem LoopInv_step (h : Host) (b : Block) (h' : Host) (o : List Out) (hl : LoopInv h) (hn : b.overlapsStop h = false)
     (hs : step h b = some (h', o)) : LoopInv h' := by
   have hns : ∀ k, CStage.unregistering k ≠ .stopping := by intro k hh; cases hh
@@ -1507,16 +1631,23 @@ theorem LoopInv_step (h : Host) (b : Block) (h' : Host) (o : List Out) (hl : Loo
     · split at hs
       · simp only [Option.some.injEq, Prod.mk.injEq] at hs
         obtain ⟨rfl, _⟩ := hs
-        exact LoopInv'_append _ _ _ _ (by intro hh; cases hh) hl
+        exact LoopInv'_append _ _ _ _ (by intro hh; cases hh) (by simp [Close.waitsOnLoop]) hl
       · split at hs
         · simp only [Option.some.injEq, Prod.mk.injEq] at hs
           obtain ⟨rfl, _⟩ := hs
-          exact LoopInv'_append _ _ _ _ (hns _) hl
-        · simp only [Option.some.injEq, Prod.mk.injEq] at hs
+          exact LoopInv'_append _ _ _ _ (hns _) (by simp [Close.waitsOnLoop]) hl
+        · rename_i hnw hsu
+          simp only [Option.some.injEq, Prod.mk.injEq] at hs
           obtain ⟨rfl, _⟩ := hs
           obtain ⟨k, hk⟩ := closeBody_stage h sync
           simp only [LoopInv, closeBody] at hk ⊢
-          exact LoopInv'_append _ _ _ _ (by rw [hk]; exact hns _) hl
+          refine LoopInv'_append _ _ _ _ (by rw [hk]; exact hns _) ?_ hl
+          intro hw
+          cases sync with
+          | false => simp [Close.waitsOnLoop] at hw
+          | true =>
+            simp only [Bool.true_and, syncUnregisters_eq, Bool.not_eq_true', Bool.not_eq_false] at hsu
+            exact hsu
   | closeWake i t =>
     simp only [step] at hs
     split at hs
@@ -1526,7 +1657,7 @@ theorem LoopInv_step (h : Host) (b : Block) (h' : Host) (o : List Out) (hl : Loo
         obtain ⟨rfl, _⟩ := he
         obtain ⟨k, hk⟩ := closeBody_stage h false
         simp only [LoopInv, closeBody, Host.setStage] at hk ⊢
-        exact LoopInv'_set _ _ _ _ _ (by rw [hk]; exact hns _) hl
+        exact LoopInv'_set _ _ _ _ _ (by rw [hk]; exact hns _) (by simp [Close.waitsOnLoop]) hl
       split at hs
       · exact body _ _ hs
       · split at hs
@@ -1534,15 +1665,32 @@ theorem LoopInv_step (h : Host) (b : Block) (h' : Host) (o : List Out) (hl : Loo
         · split at hs
           · simp only [Option.some.injEq, Prod.mk.injEq] at hs
             obtain ⟨rfl, _⟩ := hs
-            exact LoopInv'_set _ _ _ _ _ (by intro hh; cases hh) hl
+            exact LoopInv'_set _ _ _ _ _ (by intro hh; cases hh) (by simp [Close.waitsOnLoop]) hl
           · exact body _ _ hs
     · simp at hs
   | closeGoodbye i =>
     simp only [step] at hs
     split at hs
-    · simp only [Option.some.injEq, Prod.mk.injEq] at hs
-      obtain ⟨rfl, _⟩ := hs
-      exact LoopInv'_set _ _ _ _ _ (hns _) hl
+    · rename_i sync k hi
+      split at hs
+      · simp at hs
+      · rename_i hlr
+        simp only [Option.some.injEq, Prod.mk.injEq] at hs
+        obtain ⟨rfl, _⟩ := hs
+        refine LoopInv'_set _ _ _ _ _ (hns _) ?_ hl
+        intro hw
+        cases sync with
+        | false => simp [Close.waitsOnLoop] at hw
+        | true => simpa [Host.setStage] using hlr
+    · simp at hs
+  | closeBlocked i =>
+    simp only [step] at hs
+    split at hs
+    · split at hs
+      · simp only [Option.some.injEq, Prod.mk.injEq] at hs
+        obtain ⟨rfl, _⟩ := hs
+        exact LoopInv'_set _ _ _ _ _ (by intro hh; cases hh) (by simp [Close.waitsOnLoop]) hl
+      · simp at hs
     · simp at hs
   | closeMarkDone i c =>
     simp only [step] at hs
@@ -1550,12 +1698,12 @@ theorem LoopInv_step (h : Host) (b : Block) (h' : Host) (o : List Out) (hl : Loo
     · split at hs
       · simp only [Option.some.injEq, Prod.mk.injEq] at hs
         obtain ⟨rfl, _⟩ := hs
-        exact LoopInv'_set _ _ _ _ _ (by intro hh; cases hh) hl
+        exact LoopInv'_set _ _ _ _ _ (by intro hh; cases hh) (by simp [Close.waitsOnLoop]) hl
       · simp only [Option.some.injEq, Prod.mk.injEq] at hs
         obtain ⟨rfl, _⟩ := hs
         obtain ⟨_, _, _, z4, _, _, _, z8, z9⟩ := zcClose_frame h
         simp only [LoopInv, Host.setStage, z4, z8, z9]
-        exact LoopInv'_set _ _ _ _ _ (by intro hh; cases hh) hl
+        exact LoopInv'_set _ _ _ _ _ (by intro hh; cases hh) (by simp [Close.waitsOnLoop]) hl
     · simp at hs
   | closeShutdown i =>
     simp only [step] at hs
@@ -1564,21 +1712,44 @@ theorem LoopInv_step (h : Host) (b : Block) (h' : Host) (o : List Out) (hl : Loo
       obtain ⟨rfl, _⟩ := hs
       obtain ⟨_, _, _, z4, _, _, _, z8, z9⟩ := zcClose_frame h
       simp only [LoopInv, Host.setStage, z4, z8, z9]
-      exact LoopInv'_set _ _ _ _ _ (by intro hh; cases hh) hl
-    · (repeat' split at hs) <;>
+      exact LoopInv'_set _ _ _ _ _ (by intro hh; cases hh) (by simp [Close.waitsOnLoop]) hl
+    · split at hs
       · simp only [Option.some.injEq, Prod.mk.injEq] at hs
         obtain ⟨rfl, _⟩ := hs
-        exact LoopInv'_set _ _ _ _ _ (by intro hh; cases hh) hl
+        exact LoopInv'_set _ _ _ _ _ (by intro hh; cases hh) (by simp [Close.waitsOnLoop]) hl
+      · split at hs
+        · simp only [Option.some.injEq, Prod.mk.injEq] at hs
+          obtain ⟨rfl, _⟩ := hs
+          exact LoopInv'_set _ _ _ _ _ (by intro hh; cases hh) (by simp [Close.waitsOnLoop]) hl
+        · rename_i hsk
+          split at hs
+          · simp only [Option.some.injEq, Prod.mk.injEq] at hs
+            obtain ⟨rfl, _⟩ := hs
+            refine LoopInv'_set _ _ _ _ _ (by intro hh; cases hh) ?_ hl
+            intro _
+            rw [engine_close_skipped_iff] at hsk
+            simpa [Host.setStage] using hsk
+          · simp only [Option.some.injEq, Prod.mk.injEq] at hs
+            obtain ⟨rfl, _⟩ := hs
+            exact LoopInv'_set _ _ _ _ _ (by intro hh; cases hh) (by simp [Close.waitsOnLoop]) hl
+    · split at hs
+      · simp at hs
+      · rename_i hlr
+        simp only [Option.some.injEq, Prod.mk.injEq] at hs
+        obtain ⟨rfl, _⟩ := hs
+        exact LoopInv'_set _ _ _ _ _ (by intro hh; cases hh) (fun _ => by simpa [Host.setStage] using hlr) hl
     · simp at hs
   | closeFinish i =>
     simp only [step] at hs
     split at hs
     · simp only [Option.some.injEq, Prod.mk.injEq] at hs
       obtain ⟨rfl, _⟩ := hs
-      exact LoopInv'_set _ _ _ _ _ (by intro hh; cases hh) hl
-    · simp only [Option.some.injEq, Prod.mk.injEq] at hs
-      obtain ⟨rfl, _⟩ := hs
-      exact LoopInv'_set _ _ _ _ _ (by intro hh; cases hh) hl
+      exact LoopInv'_set _ _ _ _ _ (by intro hh; cases hh) (by simp [Close.waitsOnLoop]) hl
+    · split at hs
+      · simp at hs
+      · simp only [Option.some.injEq, Prod.mk.injEq] at hs
+        obtain ⟨rfl, _⟩ := hs
+        exact LoopInv'_set _ _ _ _ _ (by intro hh; cases hh) (by simp [Close.waitsOnLoop]) hl
     · simp at hs
   | closeThreadsCheck i =>
     simp only [step] at hs
@@ -1589,10 +1760,9 @@ theorem LoopInv_step (h : Host) (b : Block) (h' : Host) (o : List Out) (hl : Loo
       simp only [Block.overlapsStop] at hn
       rw [shutdown_threads_skipped_iff]
       cases hlt : h.loopThread with
-      | false => exact LoopInv'_set _ _ _ _ _ (by simp) (hlt ▸ hl)
+      | false => exact LoopInv'_set _ _ _ _ _ (by simp) (by simp [Close.waitsOnLoop]) (hlt ▸ hl)
       | true =>
-        -- no other close is stopping: this one becomes the only one
-        obtain ⟨l1, l2, l3⟩ := hl
+        obtain ⟨l1, l0, l2, l3⟩ := hl
         have hnone : ∀ (j : Nat) (cj : Close), h.closes[j]? = some cj → cj.stage ≠ .stopping := by
           intro j cj hj hst
           have : h.closes.any Close.isStopping = true :=
@@ -1602,7 +1772,7 @@ theorem LoopInv_step (h : Host) (b : Block) (h' : Host) (o : List Out) (hl : Loo
         have hlen : i < h.closes.length := (List.getElem?_eq_some_iff.mp hi).1
         have hlr : h.loopRunning = true := l1 hlt
         simp only [LoopInv, Host.setStage, LoopInv', Bool.not_true, Bool.false_eq_true, ↓reduceIte]
-        refine ⟨l1, fun _ _ _ _ => hlr, ?_⟩
+        refine ⟨l1, fun _ _ _ _ => hlr, fun _ _ _ _ => hlr, ?_⟩
         intro a b ca cb ha hb sa sb
         rw [List.getElem?_set] at ha hb
         split at ha
@@ -1620,13 +1790,13 @@ theorem LoopInv_step (h : Host) (b : Block) (h' : Host) (o : List Out) (hl : Loo
       split at hs
       · simp only [Option.some.injEq, Prod.mk.injEq] at hs
         obtain ⟨rfl, _⟩ := hs
-        exact LoopInv'_set _ _ _ _ _ (by intro hh; cases hh) hl
+        exact LoopInv'_set _ _ _ _ _ (by intro hh; cases hh) (by simp [Close.waitsOnLoop]) hl
       · simp only [Option.some.injEq, Prod.mk.injEq] at hs
         obtain ⟨rfl, _⟩ := hs
-        obtain ⟨l1, l2, l3⟩ := hl
+        obtain ⟨l1, l0, l2, l3⟩ := hl
+        simp only [Block.overlapsStop] at hn
         simp only [LoopInv, Host.setStage, LoopInv', shutdown_threads_stops_loop_holds, shutdown_threads_forgets_thread_holds, ↓reduceIte]
         have hlen : i < h.closes.length := (List.getElem?_eq_some_iff.mp hi).1
-        -- no other close was stopping (it would be the same one), so none is now
         have hnone : ∀ (j : Nat) (cj : Close), (h.closes.set i ⟨true, .returned⟩)[j]? = some cj → cj.stage ≠ .stopping := by
           intro j cj hj hst
           by_cases hij : i = j
@@ -1637,7 +1807,25 @@ theorem LoopInv_step (h : Host) (b : Block) (h' : Host) (o : List Out) (hl : Loo
             cases hst
           · rw [List.getElem?_set_ne hij] at hj
             exact hij (l3 i j _ cj hi hj rfl hst)
-        refine ⟨by simp, fun j cj hj hst => absurd hst (hnone j cj hj), fun a b ca cb ha _ sa _ => absurd sa (hnone a ca ha)⟩
+        -- nobody is blocked on the loop when it is stopped (the complement of D34's common form)
+        have hnow : ∀ (j : Nat) (cj : Close), (h.closes.set i ⟨true, .returned⟩)[j]? = some cj → cj.waitsOnLoop = false := by
+          intro j cj hj
+          by_cases hij : i = j
+          · subst hij
+            rw [List.getElem?_set_self hlen] at hj
+            simp only [Option.some.injEq] at hj
+            subst hj
+            simp [Close.waitsOnLoop]
+          · rw [List.getElem?_set_ne hij] at hj
+            cases hw : cj.waitsOnLoop with
+            | false => rfl
+            | true =>
+              have : h.closes.any Close.waitsOnLoop = true := List.any_eq_true.mpr ⟨cj, List.mem_of_getElem? hj, hw⟩
+              rw [hn] at this
+              cases this
+        refine ⟨by simp, fun j cj hj hw => ?_, fun j cj hj hst => absurd hst (hnone j cj hj), fun a b ca cb ha _ sa _ => absurd sa (hnone a ca ha)⟩
+        rw [hnow j cj hj] at hw
+        cases hw
     · simp at hs
   | closeAbort i =>
     simp only [step] at hs
@@ -1645,7 +1833,7 @@ theorem LoopInv_step (h : Host) (b : Block) (h' : Host) (o : List Out) (hl : Loo
     all_goals first
       | (simp only [Option.some.injEq, Prod.mk.injEq] at hs
          obtain ⟨rfl, _⟩ := hs
-         exact LoopInv'_set _ _ _ _ _ (by intro hh; cases hh) hl)
+         exact LoopInv'_set _ _ _ _ _ (by intro hh; cases hh) (by simp [Close.waitsOnLoop]) hl)
       | simp at hs
   | _ =>
     simp only [step] at hs <;> (repeat' split at hs) <;>
@@ -1656,5 +1844,23 @@ theorem LoopInv_step (h : Host) (b : Block) (h' : Host) (o : List Out) (hl : Loo
          first
          | exact hl
          | (split <;> exact hl))
+
+/-- `NoLateStart` is preserved by every block: `startPending` never comes back, and only a pending start-up opens late sockets -/
+theorem NoLateStart_step (h : Host) (b : Block) (h' : Host) (o : List Out) (hn : NoLateStart h) (hs : step h b = some (h', o)) :
+    NoLateStart h' := by
+  obtain ⟨h1, h2⟩ := hn
+  cases b <;> simp only [step] at hs <;> (repeat' split at hs) <;>
+    first
+    | (simp at hs; done)
+    | (simp_all; done)
+    | (simp only [Option.some.injEq, Prod.mk.injEq] at hs
+       obtain ⟨rfl, _⟩ := hs
+       first
+       | exact ⟨h1, h2⟩
+       | (split <;> exact ⟨h1, h2⟩)
+       | (simp only [NoLateStart, closeBody, Host.setStage]; exact ⟨h1, h2⟩)
+       | (cases hd : h.done
+          · rw [zcClose_of_not_done h hd]; exact ⟨h1, h2⟩
+          · rw [zcClose_of_done h hd]; exact ⟨h1, h2⟩))
 
 end Zc.Shutdown
